@@ -90,6 +90,10 @@ def run_one(res, spec, opts_name=""):
         res.fail(v["sig"], case, v["detail"])
     for kind, text in v.get("closure", []):
         res.notes["closure_error:" + kind] += 1
+    if v.get("spice"):
+        res.notes["spice_text_reading:" + str(v["spice"])[:60]] += 1
+        if v["spice"] == "iso":
+            feats.append("second_reading_spice_text")
     res.case(case, nt, feats)
     return v
 
